@@ -1283,7 +1283,7 @@ impl<'a> CompilerState<'a> {
                                     VariableType::Char => VariableType::CharPtr,
                                     _ => {
                                         return Err(self
-                                            .syntax_error("Type too complex not supported", start))
+                                            .syntax_error("Type too complex not supported", p.as_span().start()))
                                     }
                                 }
                             }
@@ -1806,7 +1806,7 @@ impl<'a> CompilerState<'a> {
                                             _ => {
                                                 return Err(self.syntax_error(
                                                     "Type too complex not supported",
-                                                    start,
+                                                    p.as_span().start(),
                                                 ))
                                             }
                                         }
@@ -2134,7 +2134,7 @@ impl<'a> CompilerState<'a> {
                                         _ => {
                                             return Err(self.syntax_error(
                                                 "Type too complex not supported",
-                                                start,
+                                                pair.as_span().start(),
                                             ))
                                         }
                                     }
